@@ -353,6 +353,20 @@ def run_job(job, T):
         T.sample('fixed-point', {'string': s})
     elif kind == 'fp-cont':
         opts = list(U.option_sets(1))
+        if job[1] == 0:
+            # a str / bytes / number is written out wherever it occurs: whether two equal occurrences are one object or
+            # two (interning, constant folding, caches - all process-dependent) must not show in the text
+            for i, v in enumerate(U.LEAVES):
+                if type(v) not in (str, bytes, int, float, bool, type(None)):
+                    continue
+                for dn, Dm, _ in DUMPERS:
+                    for o in ({}, {'default_flow_style': True}, {'canonical': True}):
+                        T.evaluations += 1
+                        one = yaml.dump([v, {'k': v}, v], Dumper=Dm, **o)
+                        two = yaml.dump([_fresh(v), {'k': _fresh(v)}, _fresh(v)], Dumper=Dm, **o)
+                        if one != two:
+                            T.violation('fixed-point', 'text-depends-on-object-identity', {'container': 'leafnest:%d' % i, 'value': 'leafnest:%d' % i, 'options': o, 'dumper': dn},
+                                        detail='%s: the same value occurring three times is written %r when it is one object and %r when the occurrences are equal but distinct objects' % (dn, _short(one), _short(two)))
         items = [c for c in U.containers() if c[0] != 'set-keyable'] + [('leaf:%d' % i, (lambda v=v: v)) for i, v in enumerate(U.LEAVES)] + \
                 [('leafnest:%d' % i, (lambda v=v: [v, {'k': v}])) for i, v in enumerate(U.LEAVES)] + \
                 [('leaftwice:%d' % i, (lambda v=v: [_fresh(v), {'k': _fresh(v)}, _fresh(v)])) for i, v in enumerate(U.LEAVES)]
